@@ -28,15 +28,20 @@ from autofit.text.formatter import TextFormatter
 from autofit.tools.util import info_whitespace
 
 
-def make_class(index, names):
+def make_class(index, names, name, base):
+    """A component class with the given constructor arguments.  `name` is its __name__ AND __qualname__ (module
+    `__main__`): several classes of one history may carry the same name with different constructors, as classes
+    returned by a class factory do; `base` (a class made earlier, or None) is its parent, whose constructor it
+    overrides."""
     src = "def __init__(self, %s):\n" % ", ".join("%s=0.0" % n for n in names)
     for n in names:
         src += "    self.%s = %s\n" % (n, n)
     ns = {}
     exec(src, ns)
-    cls = type("K%d" % index, (), {"__init__": ns["__init__"]})
-    cls.__module__ = "__main__"          # picklable by reference
-    globals()["K%d" % index] = cls
+    ns["__init__"].__qualname__ = name + ".__init__"
+    cls = type(name, (base,) if base is not None else (), {"__init__": ns["__init__"]})
+    cls.__module__ = "__main__"          # picklable by reference (the first class of a name; see World.dumps)
+    cls.__qualname__ = name
     return cls
 
 
@@ -52,9 +57,25 @@ def recursion_cache():
     return None      # refactored away: the driver then cannot clear / inspect it (reported as None)
 
 
+SERIAL = [0]
+
+
 class World:
     def __init__(self, case):
-        self.classes = [make_class(i, names) for i, names in enumerate(case["classes"])]
+        # names are private to a history (suffix = number of the history in this process): what one history observes
+        # never depends on the classes of another history, so every reported history replays alone
+        SERIAL[0] += 1
+        n = len(case["classes"])
+        self.names = ["%s_%d" % (nm, SERIAL[0]) for nm in (case.get("class_names") or ["K%d" % i for i in range(n)])]
+        bases = case.get("bases") or [None] * n
+        self.classes = []
+        for i, names in enumerate(case["classes"]):
+            self.classes.append(make_class(i, names, self.names[i], None if bases[i] is None else self.classes[bases[i]]))
+        self.registered = {}
+        for nm, cls in zip(self.names, self.classes):
+            if nm not in self.registered:            # `__main__.<name>` resolves to the FIRST class of that name
+                self.registered[nm] = cls
+                globals()[nm] = cls
         self.ctor = case["classes"]
         self.priors = {}
         self.pid_of = {}
@@ -64,6 +85,39 @@ class World:
             self.priors[pid] = p
         self.objs = []
         self.keep = []
+
+    def close(self):
+        for nm in self.registered:
+            globals().pop(nm, None)
+
+    def pickle_round_trip(self, obj):
+        """pickle by reference where `__main__.<name>` is the class; the other classes of a shared name travel as
+        persistent ids (a class is not the business of the model code under test)"""
+        import io
+        import pickle
+        world = self
+
+        class P(pickle.Pickler):
+            def persistent_id(self, x):
+                if isinstance(x, type):
+                    for i, c in enumerate(world.classes):
+                        if x is c and world.registered[world.names[i]] is not c:
+                            return i
+                return None
+
+        class U(pickle.Unpickler):
+            def persistent_load(self, pid):
+                return world.classes[pid]
+
+        buf = io.BytesIO()
+        P(buf).dump(obj)
+        return U(io.BytesIO(buf.getvalue())).load()
+
+    def ctor_names_of(self, obj):
+        """Model.constructor_argument_names as the model reports it now (None for other objects)"""
+        if isinstance(obj, Model):
+            return [str(x) for x in obj.constructor_argument_names]
+        return None
 
     # -- abstract <-> concrete -------------------------------------------------
     def val(self, v):
@@ -225,10 +279,15 @@ class World:
             obj.id = 1000 + len(self.objs)        # ModelObject.id, fixed by the harness (Model.v: oidn)
             self.objs.append(obj)
             extra["attrs"] = self.abstract_attrs(obj)
+            extra["ctor"] = self.ctor_names_of(obj)
             return None, extra
         obj = self.objs[op[1]]
         if k == "query":
-            ans = self.query(obj, op[2])
+            try:
+                ans = self.query(obj, op[2])
+            finally:
+                self.last_ctor = self.ctor_names_of(obj)
+            extra["ctor"] = self.last_ctor
             return ans, extra
         if k == "freeze":
             obj.freeze()
@@ -258,8 +317,7 @@ class World:
         elif k == "copy":
             how = op[2] if len(op) > 2 else "deep"
             if how == "pickle":
-                import pickle
-                twin = pickle.loads(pickle.dumps(obj))
+                twin = self.pickle_round_trip(obj)
             else:
                 twin = obj.copy()
             first = len(self.objs)
@@ -286,9 +344,17 @@ def run_case(case):
     if rc is not None:
         rc.cache.clear()
     w = World(case)
+    try:
+        return run_ops(w, case, rc)
+    finally:
+        w.close()
+
+
+def run_ops(w, case, rc):
     outs = []
     for op in case["ops"]:
         rec = {}
+        w.last_ctor = None
         if op[0] != "new" and not (0 <= op[1] < len(w.objs)) or any(
                 isinstance(x, list) and len(x) == 2 and x[0] == "r" and not (0 <= x[1] < len(w.objs)) for x in op):
             outs.append({"exc": "Skipped", "msg": "refers to an object an earlier failed operation did not create"})
@@ -300,6 +366,8 @@ def run_case(case):
         except BaseException as e:  # noqa
             rec["exc"] = exc_name(e)
             rec["msg"] = str(e)[:160]
+            if op[0] == "query":
+                rec["ctor"] = w.last_ctor
             if op[0] == "derive":
                 rec["flags"] = [bool(getattr(o, "_is_frozen", False)) for o in w.objs]
         if op[0] == "query":
